@@ -312,12 +312,21 @@ func (w *lw) step(op h.Op) {
 		l := m.Loc(op.Loc)
 		m.Purge(l)
 		_, inModel := l.Items[op.Id]
-		danglingDeps := 0
-		if !inModel {
-			// the statement does not say what removing an unknown id returns
-			for _, it := range l.Items {
-				if namesId(it.Body["deleteWith"], op.Id) {
-					danglingDeps++
+		if !inModel && err == nil && m.CanWrite(l, prot(op)) && m.Enabled(l) && !m.IsUncertain(op.Loc, op.Id) && !m.Pending[op.Loc][op.Id] {
+			// Removing an id that does not exist deletes nothing, so items that
+			// name it in deleteWith must survive.
+			for _, did := range w.ids(op.Loc) {
+				it := l.Items[did]
+				if it == nil || !namesId(it.Body["deleteWith"], op.Id) || m.IsUncertain(op.Loc, did) || !m.Live(it) {
+					continue
+				}
+				var gerr error
+				w.call("GetFact", func() { _, gerr = loc.GetFact(h.NewCtx(h.Prot{RK: m.ReadKeyOf(l)}), did) })
+				if gerr != nil {
+					if w.soft("cascade-from-unknown-id", op.K, "%s(%s/%s): the id does not exist, yet %s (deleteWith %s) was deleted", op.K, op.Loc, op.Id, did, h.Canon(it.Body["deleteWith"])) {
+						m.CascadeFrom(op.Loc, op.Id)
+						break
+					}
 				}
 			}
 		}
@@ -330,7 +339,6 @@ func (w *lw) step(op h.Op) {
 			// the disabled flag disappears with the rule
 			m.RemFact(op.Loc, h.PropId(op.Id, "disabled"), prot(op))
 		}
-		_ = danglingDeps
 	case "getfact":
 		w.checkGet(op.Loc, op.Id, prot(op), op)
 	case "search":
